@@ -128,13 +128,13 @@ ATOMS = {
     # a fixable expression inside a statement that is rich in precedence / literal spellings: the fixer
     # decompiles the WHOLE statement, so everything around the fix must come back unchanged
     "fstring_kitchen_sink": dict(codes=["use_fstrings"], enable=["use_fstrings"], lines=[
-        "print((p + 1) * 2, \"%s\" % q, -p ** 2, (-p) ** 2, not (p and q), (lambda z=1: z + p)(), p if q else 3, [*pair, p], {{**{{\"k\": p}}}}, 1_000 + 0x10 + 1e3, \"x\" \"y{n}\", p < 4 < 5, (p, q)[0], 2 ** 3 ** 2, (2 ** 3) ** 2, p // 2 % 3, ~p & 7 | 1 ^ 2, p << 1 >> 1, (yield_like := p))"],
+        "print((p + 1) * 2, \"%s\" % q, -p ** 2, (-p) ** 2, not (p and q), (lambda z=1: z + p)(), p if q else 3, [*pair, p], {{**{{\"k\": p}}, \"z\": q, **{{\"m\": 1}}}}, (lambda *, a, b=1, c: (a, b, c))(a=p, c=q), 1_000 + 0x10 + 1e3, \"x\" \"y{n}\", p < 4 < 5, (p, q)[0], 2 ** 3 ** 2, (2 ** 3) ** 2, p // 2 % 3, ~p & 7 | 1 ^ 2, p << 1 >> 1, (yield_like := p))"],
         simple=True, fix=True),
     "unused_kitchen_sink": dict(codes=["unused_variable"], lines=[
         "if (p + 1) * 2 > -p ** 2 and not (p and q) or (p if q else 3):", "    unused_{n} = {n}", "    print([x_{n} for x_{n} in pair if x_{n} if p], {{k_{n}: v_{n} for k_{n}, v_{n} in [(1, 2)]}})"],
         simple=False, fix=True),
     "comp_kitchen_sink": dict(codes=["unused_variable"], lines=[
-        "print([None for cv_{n} in range(p)], (p + 1) * 2, -p ** 2, not (p or q), p if q else 3, 2 ** 3 ** 2, (lambda: p)(), [*pair], \"a\" \"b\", 0x10)"], simple=True, fix=True),
+        "print([None for cv_{n} in range(p)], (p + 1) * 2, -p ** 2, not (p or q), p if q else 3, 2 ** 3 ** 2, (lambda: p)(), [*pair], {{**{{\"k\": p}}, \"z\": 1}}, (lambda *, a, b=1, c: (a, b, c))(a=1, c=2), \"a\" \"b\", 0x10)"], simple=True, fix=True),
     "fstring_side_effects": dict(codes=[], enable=["use_fstrings"], lines=["na_{n} = noisy(\"a{n}\")", "nb_{n} = noisy(\"b{n}\")", "print(\"%s-%s-%s\" % (nb_{n}, na_{n}, nb_{n}))"], simple=False),
     "many_pos_side_effects": dict(codes=["too_many_positional_args"], enable=["too_many_positional_args"], lines=["print(takes_many(takes_int({n}), takes_int(2), takes_two(3, 4), 5))"], simple=True, fix=True, needs_max_pos=True),
     "walrus_unused": dict(codes=["unused_variable"], lines=["wx_{n} = (wy_{n} := p) + {n}", "print(wx_{n})"], simple=False, fix=True),
@@ -476,6 +476,8 @@ class Gen:
         if ordered and self.opts.get("index") is not None:
             self.enabled_atoms.add(ordered[self.opts["index"] % len(ordered)])
             self.forced_atom = ordered[self.opts["index"] % len(ordered)]
+            self.meta["forced_atom"] = self.forced_atom
+            self.meta["forced_atom_has_fix"] = bool(ATOMS[self.forced_atom].get("fix"))
         skeletons = [k for k in SKELETONS if with_known or k not in ("semicolon", "one_line_if")]
         self.enabled_skeletons = r.sample(skeletons, r.randint(2, 5))
         if not with_known:
@@ -488,6 +490,10 @@ class Gen:
             self.meta["features"].append("same_basename_in_subdir")
             first = sorted(files)[0]
             files["sub/" + first] = self.module("s0")
+        if r.chance(0.12):
+            # one more module, reached through a symbolic link whose target is outside the tree
+            self.meta["features"].append("symlinked_file")
+            self.meta["links"] = {"link_mod%d.py" % r.below(90): self.module("lnk")}
         if len(files) >= 2 and not any("/" in n for n in files) and r.chance(0.3):
             # the second file imports a class of the first and reads the same never-set attribute
             self.meta["features"].append("cross_file_class_attribute_read")
